@@ -119,10 +119,10 @@ def run(tier):
             inputs.append(("grammar", render_tokens(case["toks"], k * 7 + var + vlib.seed()).encode()))
             nA += 1
     open(c, "w").write('SPECIFICATION Spec\nCONSTANTS\n  MaxSteps = 45\n  MaxLen = 160\n  Start = "<Def>"\nINVARIANT Emit\nCHECK_DEADLOCK FALSE\n')
-    sim = run_tlc("Grammar", c, "c01", workers=4, simulate=600 if tier == "quick" else 6000, depth=70, timeout=600, cases_suffix="-sim")
+    sim = run_tlc("Grammar", c, "c01", workers=4, simulate=600 if tier == "quick" else 4000, depth=70, timeout=600, cases_suffix="-sim")
     simcases = sorted(read_ndjson(sim.cases_path), key=lambda c_: json.dumps(c_["toks"]))
     rnd.shuffle(simcases)
-    for k, case in enumerate(simcases[:2000 if tier == "quick" else 30000]):
+    for k, case in enumerate(simcases[:2000 if tier == "quick" else 12000]):
         inputs.append(("grammar-deep", render_tokens(case["toks"], k + 13 * vlib.seed()).encode()))
     # ---- A2: every special callee name x 0..3 arguments x three ways of writing the instantiation (the analysis passes key on
     #          Circomlib names and index into the argument list)
@@ -133,6 +133,31 @@ def run(tier):
                 body = form % (cal, args)
                 for curve in CURVES:
                   inputs.append(("callee-matrix:" + curve, ("pragma circom 2.1.0;\ntemplate W(n) {\n  signal input a;\n  signal output o;\n  %s\n  o <== a;\n}\n" % body).encode()))
+    # ---- A3: anonymous-component matrix: callee shapes (inputs / outputs declared once, twice in one block, once per
+    #          branch, as arrays, not at all) x ways of calling it (0..3 positional arguments, named arguments with right,
+    #          wrong and repeated names, tuples of 1..3 targets, calls nested in expressions and other statements, wrong
+    #          parameter counts, callee undefined or a function). The sugar remover indexes argument and signal lists by
+    #          position: every count mismatch must end in a report, not in a panic.
+    shapes = {
+        "plain2": "signal input a;\n  signal input b;\n  signal output o;\n  signal output q;\n  o <== a;\n  q <== b;",
+        "dup_branch": "signal output o;\n  if (p == 1) {\n    signal input a;\n    o <== a;\n  } else {\n    signal input a;\n    o <== a + 1;\n  }",
+        "dup_block": "signal input a;\n  signal input a;\n  signal output o;\n  o <== a;",
+        "dup_out": "signal input a;\n  if (p == 1) {\n    signal output o;\n    o <== a;\n  } else {\n    signal output o;\n    o <== a + 1;\n  }",
+        "noin": "signal output o;\n  o <== p;",
+        "noout": "signal input a;\n  a === p;",
+        "arrays": "signal input a[2];\n  signal output o[2];\n  o[0] <== a[0];\n  o[1] <== a[1];",
+    }
+    calls = ["r <== A(1)();", "r <== A(1)(x);", "r <== A(1)(x, y);", "r <== A(1)(x, y, x);",
+             "r <== A(1)(a <== x);", "r <== A(1)(a <== x, b <-- y);", "r <== A(1)(b <== y, a <== x);", "r <== A(1)(zz <== x);",
+             "r <== A(1)(a <== x, a <== y);", "(r) <== A(1)(x);", "(r, t) <== A(1)(x, y);", "(r, t, u) <== A(1)(x, y);", "(_, t) <== A(1)(x, y);",
+             "(r, _, _) <== A(1)(x);", "A(1)(x, y);", "A(1)(x);", "r <== A(1)(x, y) + 1;", "r <== A(1)(A(1)(x), y);", "var v = A(1)(x);\n  r <== v;",
+             "r <== A()(x);", "r <== A(1, 2)(x, y);", "r <== Nope(1)(x);", "r <== g(1)(x);", "rr <== A(1)([x, y]);", "(rr) <== A(1)(x);",
+             "r <== A(1)(x, y).o;", "r <== A(p)(x) ? 1 : 0;", "for (var i = 0; i < 2; i++) {\n    rr[i] <== A(i)(x);\n  }"]
+    for sn, body in shapes.items():
+        for call in calls:
+            text = ("pragma circom 2.1.4;\nfunction g(n) {\n  return n;\n}\ntemplate A(p) {\n  %s\n}\ntemplate M(p) {\n  signal input x;\n  signal input y;\n"
+                    "  signal output r;\n  signal output t;\n  signal output u;\n  signal output rr[2];\n  %s\n}\ncomponent main = M(1);\n" % (body, call))
+            inputs.append(("anon-matrix:" + sn, text.encode()))
     # ---- B: corpora
     corpus_texts = []
     for d in ("stress", "base"):
@@ -154,7 +179,7 @@ def run(tier):
     for case in read_ndjson(bgen.cases_path):
         inputs.append(("bytes", b"".join(HOSTILE[s] for s in case["s"])))
     # ---- D: mutations
-    nD = 2000 if tier == "quick" else 60000
+    nD = 2000 if tier == "quick" else 20000
     small = [t for t in corpus_texts if len(t) < 3000]
     for _ in range(nD):
         if rnd.random() < 0.15:
